@@ -1621,11 +1621,13 @@ func (w *transformingWriter) Write(data []byte) (n int, err error) {
 			if err != nil {
 				err = malformedRequestError(err)
 				w.rw.reportError(err)
+				w.err = err
 				return written, err
 			}
 			if limit := w.rw.op.methodConf.maxMsgBufferBytes; w.latestEnvelope.length > limit {
 				err = bufferLimitError(int64(limit))
 				w.rw.reportError(err)
+				w.err = err
 				return written, err
 			}
 			w.buffer = w.msg.reset(w.rw.op.bufferPool, false, w.latestEnvelope.compressed)
@@ -1635,6 +1637,7 @@ func (w *transformingWriter) Write(data []byte) (n int, err error) {
 		} else {
 			if err := w.flushMessage(); err != nil {
 				w.rw.reportError(err)
+				w.err = err
 				return written, err
 			}
 			if w.latestEnvelope.trailer && len(data) == 0 {
